@@ -91,11 +91,29 @@ def step (_ : Unit) (toks : List String) : Unit × String :=
   | _ => ((), "bad-op")
 
 /-! oracle -/
+/- The failure signature.  Two situations get a signature of their own (computed from the failing
+    observation, so that the recorded finding cannot hide a different failure of the same kind):
+    * a `Size` above MaxInt64 that the TOML decoder refuses to read back;
+    * a signed size text whose exact value lies just below MinInt64 and is accepted *as MinInt64*
+      (humanize's float64 rounds |value| to 2^63, which `parseBytesSigned` maps to MinInt64). -/
+open Influx.Spec.C34 in
+def signatureOf (o : Obs) (f : Fail) (toks : List String) : String :=
+  match o, f with
+  | .rtSize .v2u x none, .sizeRoundTripRejected =>
+    if toks.head? = some "tomlu" ∧ x > 2 ^ 63 - 1 then "toml-integer-above-int64-rejected" else f.signature
+  | .parseSize k text (some v), .sizeOverflowAccepted =>
+    match refSize k text with
+    | some exact =>
+      if k.signed ∧ v = -(2 ^ 63 : Int) ∧ exact < v ∧ floatClose v exact then "signed-underflow-clamped-to-minint64"
+      else f.signature
+    | none => f.signature
+  | _, _ => f.signature
+
 open Influx.Spec.C34 in
 def judge (o : Obs) (toks : List String) (tag : String) : Verdict :=
   match check o with
   | (none, tol) => { ok := holdsOn o, nontrivial := true, tags := if tol then [tag, "float-tolerated"] else [tag] }
-  | (some f, _) => { (Verdict.fail (f.signature ++ ":" ++ "_".intercalate toks)) with tags := [tag] }
+  | (some f, _) => { (Verdict.fail (signatureOf o f toks ++ ":" ++ "_".intercalate toks)) with tags := [tag] }
 
 def parseRes (s : String) : Option (Option Int) :=
   if s = "err" then some none else s.toInt?.map some
@@ -144,8 +162,8 @@ def oracleStep (toks : List String) (ans : String) : Verdict :=
 /-- signatures of findings already recorded for C34: judged last so that they cannot hide another
     failure in the same batch (`Verdict.and` keeps the first failure) -/
 def lowPriority (v : Verdict) : Bool :=
-  !v.ok && (v.reason.startsWith "duration-overflow-wrapped:" || v.reason.startsWith "size-overflow-accepted:"
-            || v.reason.startsWith "size-roundtrip-rejected:tomlu_")
+  !v.ok && (v.reason.startsWith "duration-overflow-wrapped:" || v.reason.startsWith "signed-underflow-clamped-to-minint64:"
+            || v.reason.startsWith "toml-integer-above-int64-rejected:")
 
 def oracle (obs : List (List String × String)) : Verdict :=
   let vs := obs.map fun (t, a) => oracleStep t a
